@@ -42,7 +42,7 @@ CK = ['none', 'str', 'dict', 'flagT', 'flagF', 'callable']
 OUT = [None, True, False, 0, '', 'no', {'e': 1}, [1], 'raise',
        1, 1.0, 2, -1, 0.0, [], {}, 'True', 'raise-type']
 KIND = ['polling', 'websocket', 'jsonp']
-SRV = ['T', 'A']
+SRV = ['T', 'A', 'H']      # H: the asyncio server behind the real aiohttp adapter
 DEFAULT = (25, 20, 10 ** 6, True, None, 'none', None, 'polling')
 
 
@@ -67,7 +67,7 @@ def cookie_cfg(name):
 def cells(tier, seed):
     allc = list(itertools.product(
         range(len(PI)), range(len(PT)), range(len(MB)), range(2),
-        range(3), range(len(CK)), range(len(OUT)), range(3), range(2)))
+        range(3), range(len(CK)), range(len(OUT)), range(3), range(3)))
     return allc
 
 
@@ -559,13 +559,13 @@ def plan(tier, seed):
                     for w in range(m):
                         c = list(d)
                         c[i], c[j] = v, w
-                        for s in (0, 1):
+                        for s in (0, 1, 2):
                             one.add(tuple(c) + (s,))
-        chosen = sorted(one) + rng.sample(allc, 1500)
+        chosen = sorted(one) + rng.sample(allc, 2000)
     # websocket driver unavailable: small sub-grid
     extra = [(0, 0, 2, a, tr, 0, o, k, s, False)
              for a in (0, 1) for tr in (0, 1) for o in (0, 2)
-             for k in (0, 1) for s in (0, 1)]
+             for k in (0, 1) for s in (0, 1, 2)]
     chosen = list(chosen) + extra
     rng.shuffle(chosen)
     n = 16
